@@ -1,0 +1,74 @@
+// Verification hooks. Compiled only with `--cfg slotted_egraphs_verif`.
+// Thin, add-only forwarding wrappers: no logic of their own.
+
+use crate::*;
+
+/// Public wrapper around the crate-private permutation group structure.
+#[derive(Clone, Debug)]
+pub struct VGroup(Group<Perm>);
+
+impl VGroup {
+    pub fn new(omega: &SmallHashSet<Slot>, generators: Vec<SlotMap>) -> Self {
+        let identity = SlotMap::identity(omega);
+        VGroup(Group::new(&identity, generators.into_iter().collect()))
+    }
+
+    pub fn contains(&self, p: &SlotMap) -> bool {
+        self.0.contains(p)
+    }
+
+    pub fn all_perms(&self) -> Vec<SlotMap> {
+        self.0.all_perms()
+    }
+
+    pub fn count(&self) -> usize {
+        self.0.count()
+    }
+
+    pub fn orbit(&self, s: Slot) -> SmallHashSet<Slot> {
+        self.0.orbit(s)
+    }
+
+    pub fn add_set(&mut self, perms: Vec<SlotMap>) -> bool {
+        self.0.add_set(perms.into_iter().collect())
+    }
+
+    pub fn add(&mut self, p: SlotMap) -> bool {
+        self.0.add(p)
+    }
+
+    pub fn generators(&self) -> Vec<SlotMap> {
+        self.0.generators().into_iter().collect()
+    }
+
+    pub fn is_trivial(&self) -> bool {
+        self.0.is_trivial()
+    }
+}
+
+impl<L: Language, N: Analysis<L>> EGraph<L, N> {
+    /// Number of e-nodes waiting to be re-processed (must be 0 when a public call returns).
+    pub fn verif_pending_len(&self) -> usize {
+        self.pending.len()
+    }
+
+    /// Number of classes waiting for `Analysis::modify` (must be 0 when a public call returns).
+    pub fn verif_modify_queue_len(&self) -> usize {
+        self.modify_queue.len()
+    }
+
+    /// The generators of the symmetry group of a class, as slot maps over the class's slots.
+    pub fn verif_group_generators(&self, i: Id) -> Vec<SlotMap> {
+        self.classes[&i]
+            .group
+            .generators()
+            .into_iter()
+            .map(|pp| pp.elem)
+            .collect()
+    }
+
+    /// Size of the symmetry group of a class.
+    pub fn verif_group_count(&self, i: Id) -> usize {
+        self.classes[&i].group.count()
+    }
+}
